@@ -72,7 +72,7 @@ Begin(n) ==
                   THEN Invoke(M, IdleCfg(s2), Len(s2.insts), M.start, <<>>, FuelPerCall, MaxDepth)
                   ELSE done(s2)
           [] op.op = "child" ->
-              LET s2 == InstantiateChild(M, st, op.inst)
+              LET s2 == IF "binds" \in DOMAIN op THEN InstantiateChildWith(M, st, op.inst, op.binds) ELSE InstantiateChild(M, st, op.inst)
               IN  IF ~SegmentsInBounds(M, s2, Len(s2.insts)) THEN [IdleCfg(st) EXCEPT !.status = "undefined"]
                   ELSE IF M.start >= 0
                   THEN Invoke(M, IdleCfg(s2), Len(s2.insts), M.start, <<>>, FuelPerCall, MaxDepth)
